@@ -34,3 +34,33 @@ Example C12_src_nonvacuous : src_replaylog_entry_skipped_recognised = true ->
   src_replaylog_entry_skipped 5 5 false false false = true /\ src_replaylog_entry_skipped 6 5 false false false = false /\
   src_replaylog_entry_skipped 6 5 true true false = true.
 Proof. intro H; xl_rec H. all: repeat split; vm_compute; reflexivity. Qed.
+
+(* one iteration of the endpoint loop of RelayMessageOne for a locally generated message (origin = null) on an endpoint that is the
+   routing master or talks to it = one unfolding of rl_relay_zone_eps (disconnected: log needed; second endpoint of a foreign zone:
+   skipped with its log position advanced; otherwise sent - and enqueued unless the endpoint is syncing) *)
+From Icv Require Import Facts.Facts_fn_relay Src.SrcRelay.
+From Coq Require Import Bool.
+Local Open Scope bool_scope.
+
+Theorem C12_src_relay_endpoint_iter : src_relay_endpoint_iter_recognised = true ->
+  forall (is_local : bool) (e : rl_ep) (r : list rl_ep) (relayed ln ld : bool) (live skipped : list Z) (wm tm : bool),
+    wm || tm = true ->
+    rl_relay_zone_eps is_local (e :: r) relayed ln ld live skipped
+    = let '(_, relayed', ln', ld', evs) :=
+        src_relay_endpoint_iter false (rl_ep_conn e) is_local relayed ln ld false false false false false wm tm in
+      rl_relay_zone_eps is_local r relayed' ln' ld'
+        (live ++ (if xrl_has XrlSend evs && negb (rl_ep_sync e) then [rl_ep_id e] else []))
+        (skipped ++ (if xrl_has XrlSkip evs then [rl_ep_id e] else [])).
+Proof. exact src_relay_endpoint_iter_eq. Qed.
+Print Assumptions C12_src_relay_endpoint_iter.
+
+(* with an origin (C11): a connected endpoint gets the message unless the zone was already served, it is the sender, it belongs to
+   the origin zone, or neither side is the routing master; every connected endpoint that does not get it is skipped *)
+Theorem C12_src_relay_endpoint_origin : src_relay_endpoint_iter_recognised = true ->
+  forall conn is_local relayed ln ld ho hc fe hz fz wm tm,
+    let '(lft, relayed', ln', ld', evs) := src_relay_endpoint_iter false conn is_local relayed ln ld ho hc fe hz fz wm tm in
+    xrl_has XrlSend evs = conn && negb (relayed && negb is_local) && negb (ho && hc && fe) && negb (ho && hz && fz) && (wm || tm) /\
+    (xrl_has XrlSend evs = true -> relayed' = true) /\ (xrl_has XrlSend evs = false -> relayed' = relayed) /\
+    xrl_has XrlSkip evs = conn && negb (xrl_has XrlSend evs).
+Proof. exact src_relay_endpoint_iter_origin. Qed.
+Print Assumptions C12_src_relay_endpoint_origin.
